@@ -158,6 +158,11 @@ def COMMON(): return dict(tu=TU, filter='tbox::flow', rename=R, spec=SPEC,
 ST = ['SM_run__child', 'SM_start__child', 'SM_stop__child', 'SM_isTerminated__child', 'SM_findState', 'v_evmap__find', 'v_evmap__end', 'v_map_it_second',
       'v_fn_call__int_tbox_flow_Event', 'v_fn_call__bool_tbox_flow_Event', 'v_fn_call__void_tbox_flow_Event', 'v_fn_call__void_int_int_tbox_flow_Event']
 EXTERN_L = r'''
+_Bool SM_isTerminated__child(SM *sub)
+__CPROVER_requires(sub == g_cur0->sub_sm)
+__CPROVER_assigns()
+__CPROVER_ensures(T(__CPROVER_return_value) == T(g_sub_term))
+;
 void SM_stop__child(SM *sub)
 __CPROVER_requires(sub == g_cur0->sub_sm && g_exit_calls == 0)                         /* inner machine first: its states exit before the enclosing state does */
 __CPROVER_assigns(g_child_stops)
@@ -182,10 +187,10 @@ __CPROVER_ensures(g_exit_calls == __CPROVER_old(g_exit_calls) + (T(g_stopping) ?
 '''
 SPEC_L = {
     ('prelude',): PRELUDE + 'static State *g_found; static _Bool g_stopping;\n', ('after_protos',): EXTERN_L, ('stub', 'SM_findState'): True,
-    ('call_as', 'SM_stop', 'SM_stop'): 'SM_stop__child', ('call_as', 'SM_start', 'SM_start'): 'SM_start__child',
+    ('call_as', 'SM_stop', 'SM_stop'): 'SM_stop__child', ('call_as', 'SM_start', 'SM_start'): 'SM_start__child', ('call_as', 'SM_stop', 'SM_isTerminated'): 'SM_isTerminated__child',
     ('contract', 'SM_stop'): r'''
 __CPROVER_requires(__CPROVER_is_fresh(self, sizeof(*self)) && (self->is_running_ == 0 || self->is_running_ == 1) && self->cb_level_ >= 0 && self->cb_level_ < 1000)
-__CPROVER_requires(T(self->is_running_) ==> __CPROVER_is_fresh(self->curr_state_, sizeof(State)))
+__CPROVER_requires(T(self->is_running_) ==> (__CPROVER_is_fresh(self->curr_state_, sizeof(State)) && (self->curr_state_->sub_sm == 0 || __CPROVER_is_fresh(self->curr_state_->sub_sm, sizeof(SM)))))
 __CPROVER_assigns(g_sm, g_cur0, g_stopping, g_exit_calls, g_enter_calls, g_child_stops, self->cb_level_, self->curr_state_, self->is_running_)
 __CPROVER_ensures(self->cb_level_ == __CPROVER_old(self->cb_level_))
 __CPROVER_ensures((T(__CPROVER_old(self->is_running_)) && __CPROVER_old(self->cb_level_) == 0) ==> (!T(self->is_running_) && self->curr_state_ == 0 &&
@@ -202,14 +207,20 @@ __CPROVER_ensures(T(__CPROVER_return_value) == (!T(__CPROVER_old(self->is_runnin
 __CPROVER_ensures(T(__CPROVER_return_value) ==> (T(self->is_running_) && self->curr_state_ == g_found && g_enter_calls == (T(g_found->enter_action.engaged) ? 1 : 0) && g_child_starts == (g_found->sub_sm != 0 ? 1 : 0)))
 __CPROVER_ensures(!T(__CPROVER_return_value) ==> (g_enter_calls == 0 && g_child_starts == 0 && T(self->is_running_) == T(__CPROVER_old(self->is_running_)) && self->curr_state_ == __CPROVER_old(self->curr_state_)))
 ''',
+    ('contract', 'SM_isTerminated'): r'''
+__CPROVER_requires(__CPROVER_is_fresh(self, sizeof(*self)) && (self->curr_state_ == 0 || __CPROVER_is_fresh(self->curr_state_, sizeof(State))))
+__CPROVER_assigns()
+__CPROVER_ensures(T(__CPROVER_return_value) == (self->curr_state_ != 0 && self->curr_state_->id == 0))        /* terminated == sitting in the state whose id is TERM (0), whoever registered it */
+''',
     ('ghost', 'SM_start', 'entry'): 'g_sm = self; g_stopping = 0; g_exit_calls = 0; g_enter_calls = 0; g_child_starts = 0;',
 }
 UNITS = [UnitSpec(name='state_machine', emit=[C + 'run'], targets=[
     Target('run', H('  SM *m; Event e; SM_run(m, e);'), enforce='SM_run', replace=ST, timeout=600, bound='at most 8 routes per state (loops under contract)',
            clause='run: rejection, delegation to the sub-machine, handler-then-first-matching-route selection with guards evaluated in order, exit -> route -> enter -> notify -> sub start/run exactly once each, cb_level_ restored on every path'),
 ], **COMMON()),
-  UnitSpec(name='state_machine_life', emit=[C + 'start', C + 'stop'], targets=[
-    Target('stop', H('  SM *m; SM_stop(m);'), enforce='SM_stop', replace=['SM_stop__child', 'v_fn_call__void_tbox_flow_Event'], timeout=300,
+  UnitSpec(name='state_machine_life', emit=[C + 'start', C + 'stop', C + 'isTerminated'], targets=[
+    Target('isTerminated', H('  SM *m; SM_isTerminated(m);'), enforce='SM_isTerminated', clause='terminated iff the current state has the terminal id'),
+    Target('stop', H('  SM *m; SM_stop(m);'), enforce='SM_stop', replace=['SM_stop__child', 'SM_isTerminated__child', 'v_fn_call__void_tbox_flow_Event'], timeout=300,
            clause='stop: rejected when idle or inside an action; otherwise the active sub-machine is stopped first, then the current state exits once; idle afterwards'),
     Target('start', H('  SM *m; SM_start(m);'), enforce='SM_start', replace=['SM_start__child', 'SM_findState', 'v_fn_call__void_tbox_flow_Event'], timeout=300,
            clause='start: only from idle and outside actions; initial state entered once, then its sub-machine started'),
